@@ -62,6 +62,18 @@ def worker(sh):
             base = chain[0]
             chain[1] = [(i, v + R if v + R < (1 << 256) else v) for i, v in base]
         sc.add('precmp 0 %s' % ' '.join(alist(e) for e in chain), 'precmp', lists=chain)
+    # value changes whose DIFFERENCE has a prescribed bit length (2^k + small, for every k): a fast path for "small" differences has its
+    # threshold somewhere in between the small test ids and the 255-bit random ones
+    ks = list(range(1, 256)) if not sh.quick else [k for k in range(1, 256) if k % 16 == sh.index % 16] + [31, 32, 33, 63, 64, 65]
+    for k in ks:
+        i = rng.randrange(l)
+        base = rng.choice([0, 1, rng.getrandbits(64), rng.getrandbits(200)])
+        d = (1 << k) + rng.choice([0, 1, 5, 12345, (1 << k) - 1 if k < 255 else 0])
+        a_, b_ = base, (base + d) % (1 << 256)
+        other = [(j, rng.getrandbits(256)) for j in range(l) if j != i and rng.random() < 0.3][:3]
+        la = sorted(other + [(i, a_)])
+        lb = sorted(other + [(i, b_)])
+        sc.add('precmp 0 %s %s %s' % (alist(la), alist(lb), alist(la)), 'precmp', lists=[la, lb, la])
     # ---- adjust_nondelegable vs direct qualification, component for component
     parents = []
     for _ in range(sh.pick(2, 6)):
